@@ -102,7 +102,7 @@ func runC04(p *P, r *R) {
 					okc = false
 				}
 			}
-			r.ob("R04.1", fn+": slot index of word +"+itoa(s.K)+" is (loaded tail %% cap)*queueElementLen", p.ipos(s.In), okc, true, "")
+			r.ob("R04.1", fn+": slot index of word +"+itoa(s.K)+" is (loaded tail % cap)*queueElementLen", p.ipos(s.In), okc, true, "")
 		}
 		// R04.3 region
 		rg := p.mutexRegion("queue.Mutex")
